@@ -3,11 +3,14 @@
 // status events, control-connection loss, refresh failure and queries is applied
 // to a real Session (instrumented gocql) whose control connection reads the
 // system tables of scripted nodes; after each event the system settles (virtual
-// time) and the ring indexes, pools, host states and offered hosts are compared
-// with a reference model fed the same history.
+// time) and the ring indexes, pools, host states, offered hosts and the selection
+// policy's content are compared with a reference model fed the same history.
+// Configuration dimensions: a HostFilter (by data centre / by address set; the model
+// subtracts the nodes it rejects) and a token-aware selection policy.
 package main
 
 import (
+	"errors"
 	"fmt"
 	"os"
 	"sort"
@@ -17,6 +20,7 @@ import (
 	"github.com/gocql/gocql"
 
 	"verif/engine/mcreport"
+	"verif/engine/refcass"
 	"verif/engine/refcql/frame"
 	"verif/engine/vnode"
 	vs "verif/engine/vsched"
@@ -32,12 +36,35 @@ type c16cfg struct {
 	burst    bool            // each step is a burst of two events with a gap, optionally with a slow system.peers read
 	gaps     []time.Duration // burst gaps (default 0, 1.2s, 2.1s; nil also enumerates a slow system.peers read)
 	t        [2]int          // schedule/timer deviations on top (total)
+	// filter: the session is configured with a HostFilter: "dc" = DataCentreHostFilter("dc1"), "addr" =
+	// WhiteListHostFilter(10.0.0.1-4). The cluster then also has nodes the filter rejects (hF from the start, hG joining,
+	// B turning into a rejected node) and a rejected node (hF) is one of the two contact points.
+	filter string
+	// tokenAware: the selection policy is TokenAwareHostPolicy(RoundRobinHostPolicy()) with a session keyspace
+	// (SimpleStrategy rf 1); nodes own widely spaced Murmur3 tokens and queries carry routing keys of every token range.
+	tokenAware bool
 }
 
 type recPolicy16 struct {
 	gocql.HostSelectionPolicy
 	offers *[]string
+	noInit bool // the wrapped policy was initialised by the harness (VerifC16TokenAwarePolicy)
 }
+
+func (p recPolicy16) Init(s *gocql.Session) {
+	if !p.noInit {
+		p.HostSelectionPolicy.Init(s)
+	}
+}
+
+// dbgLogger16 prints the driver's log lines with the virtual clock (development aid: C16_LOG=1 with -replay).
+type dbgLogger16 struct{}
+
+func (dbgLogger16) Print(v ...interface{}) { fmt.Fprintln(os.Stderr, append([]interface{}{"LOG", vs.Clock()}, v...)...) }
+func (dbgLogger16) Printf(format string, v ...interface{}) {
+	fmt.Fprintf(os.Stderr, "LOG %v "+strings.TrimRight(format, "\n")+"\n", append([]interface{}{vs.Clock()}, v...)...)
+}
+func (dbgLogger16) Println(v ...interface{}) { fmt.Fprintln(os.Stderr, append([]interface{}{"LOG", vs.Clock()}, v...)...) }
 
 func (p recPolicy16) Pick(q gocql.ExecutableQuery) gocql.NextHost {
 	inner := p.HostSelectionPolicy.Pick(q)
@@ -62,7 +89,86 @@ var (
 	hD  = vhost{id: hostUUID(4), ip: "10.0.0.2", dc: "dc1", rack: "r1", tokens: []string{"4000"}} // a new node on B's address
 	hX  = vhost{id: hostUUID(5), ip: "10.0.0.5", dc: "dc1", rack: "r1", noTok: true}              // invalid peer row
 	hE  = vhost{id: hostUUID(6), ip: "10.0.0.4", dc: "dc1", rack: "r2", tokens: []string{"6000"}} // another joining node
+	// host-filter scenarios: nodes both filters reject (another data centre, addresses outside the accepted set)
+	hF = vhost{id: hostUUID(7), ip: "10.0.0.6", dc: "dc2", rack: "r1", tokens: []string{"7000"}} // in the cluster from the start; also a contact point
+	hG = vhost{id: hostUUID(8), ip: "10.0.0.7", dc: "dc2", rack: "r1", tokens: []string{"8000"}} // joins later
+	// B as the cluster reports it after it turned into a node the filter rejects
+	hBdc2  = vhost{id: hostUUID(2), ip: "10.0.0.2", dc: "dc2", rack: "r1", tokens: []string{"2000"}} // data-centre filter: re-labelled into dc2, same address
+	hBaddr = vhost{id: hostUUID(2), ip: "10.0.0.8", dc: "dc1", rack: "r1", tokens: []string{"2000"}} // address-set filter: moved to an address outside the set
 )
+
+// the addresses the "addr" filter accepts
+var acceptedAddrs = []string{"10.0.0.1", "10.0.0.2", "10.0.0.3", "10.0.0.4"}
+
+// rejected is the harness's own statement of what the configured filter rejects (independent of gocql's filters).
+func (c *c16cfg) rejected(h vhost) bool {
+	switch c.filter {
+	case "dc":
+		return h.dc != "dc1"
+	case "addr":
+		for _, a := range acceptedAddrs {
+			if a == h.ip {
+				return false
+			}
+		}
+		return true
+	}
+	return false
+}
+
+// knownOf: the nodes the session must know for a view: valid nodes minus those the host filter rejects (id -> ip).
+func (c *c16cfg) knownOf(v *cview) map[string]string {
+	m := map[string]string{}
+	for _, h := range v.hosts {
+		if !h.noTok && !c.rejected(h) {
+			m[h.id] = h.ip
+		}
+	}
+	return m
+}
+
+// wide Murmur3 tokens for the token-aware scenario (by host id): every token range can be hit by a routing key
+var wideTokens = map[string]string{
+	hostUUID(1): "-6000000000000000000", hostUUID(2): "-2000000000000000000", hostUUID(3): "2000000000000000000",
+	hostUUID(4): "6000000000000000000", hostUUID(6): "4000000000000000000",
+}
+
+// host applies the scenario's variations to a node: distinct peer address, wide tokens.
+func (c *c16cfg) host(h vhost) vhost {
+	h = withPeer(h, c.distinct)
+	if c.tokenAware && !h.noTok {
+		if t, ok := wideTokens[h.id]; ok {
+			h.tokens = []string{t}
+		}
+	}
+	return h
+}
+
+// routing keys whose Murmur3 token falls into each of the ranges delimited by the wide tokens
+// (<= -6e18, (-6e18,-2e18], (-2e18,2e18], (2e18,4e18], (4e18,6e18], > 6e18), found by search with the reference hash
+var routingKeys [][]byte
+
+func findRoutingKeys() {
+	bounds := []int64{-6000000000000000000, -2000000000000000000, 2000000000000000000, 4000000000000000000, 6000000000000000000}
+	found := make([][]byte, len(bounds)+1)
+	n := 0
+	for i := 0; i < 10000 && n < len(found); i++ {
+		k := []byte(fmt.Sprintf("k%d", i))
+		t := refcass.Murmur3Token(k)
+		r := 0
+		for r < len(bounds) && t > bounds[r] {
+			r++
+		}
+		if found[r] == nil {
+			found[r] = k
+			n++
+		}
+	}
+	if n != len(found) {
+		panic("c16: no routing key found for some token range")
+	}
+	routingKeys = found
+}
 
 // withPeer gives a host a node-to-node address distinct from its rpc address.
 func withPeer(h vhost, distinct bool) vhost {
@@ -89,17 +195,6 @@ func without(v *cview, id string) {
 		}
 	}
 	v.hosts = out
-}
-
-// valid nodes of a view: id -> ip (invalid rows dropped, duplicates collapsed)
-func validOf(v *cview) map[string]string {
-	m := map[string]string{}
-	for _, h := range v.hosts {
-		if !h.noTok {
-			m[h.id] = h.ip
-		}
-	}
-	return m
 }
 
 func ipBytes(ip string) []byte {
@@ -167,18 +262,31 @@ func (c *c16cfg) body(depth int) {
 	gocql.VerifResetGlobals()
 	vatomic.Yield = false
 	cl := newCluster(true)
-	view := &cview{hosts: []vhost{hA, hB}}
-	if c.distinct {
-		for i := range view.hosts {
-			view.hosts[i].peerIP = strings.Replace(view.hosts[i].ip, "10.0.0.", "10.1.0.", 1)
-		}
+	view := &cview{hosts: []vhost{c.host(hA), c.host(hB)}}
+	if c.filter != "" {
+		view.hosts = append(view.hosts, c.host(hF))
 	}
 	var peersLog, localLog []string
+	// host-filter scenarios: lastRejContact = number of system.peers reads served so far at the moment a node the
+	// filter rejects (hF, hG) last received a request (-1: never). A rejected contact point the control connection
+	// tried becomes known to the session until the next ring refresh removes it again.
+	lastRejContact := -1
+	blocked := false // nodes the filter accepts refuse new connections
 	failNext := false
 	var peersDelay time.Duration
 	oddHeartbeat := false // the next OPTIONS on a control (registered) connection is answered with READY
 	nodes := map[string]*sysnode{}
-	for _, ip := range []string{"10.0.0.1", "10.0.0.2", "10.0.0.3", "10.0.0.4", "10.0.0.5"} {
+	ips := []string{"10.0.0.1", "10.0.0.2", "10.0.0.3", "10.0.0.4", "10.0.0.5"}
+	if c.filter != "" {
+		ips = append(ips, hF.ip, hG.ip, hBaddr.ip)
+		cl.dialFate = func(ip string, n int) error {
+			if blocked && ip != hF.ip && ip != hG.ip && ip != hBaddr.ip {
+				return errors.New("connect: connection refused (scripted)")
+			}
+			return nil
+		}
+	}
+	for _, ip := range ips {
 		sn := &sysnode{cl: cl, view: func() *cview { return view }, self: ip, peersLog: &peersLog, localLog: &localLog,
 			peersDelay: func() time.Duration { return peersDelay },
 			optionsReply: func(sc *vnode.ServerConn) interface{} {
@@ -203,16 +311,35 @@ func (c *c16cfg) body(depth int) {
 				return false
 			},
 			next: func(n *vnode.Node, sc *vnode.ServerConn, rec *vnode.ReqRec) vnode.Reply {
-				if _, ok := rec.Req.Msg.(*frame.Query); ok {
+				if q, ok := rec.Req.Msg.(*frame.Query); ok {
+					if strings.HasPrefix(strings.ToUpper(strings.TrimSpace(q.Statement)), "USE ") {
+						return vnode.Reply{Msg: frame.ResultSetKeyspace{Keyspace: "ks"}}
+					}
 					return vnode.Reply{Msg: vnode.TextRows("t", "ok")}
 				}
 				return vnode.Reply{Msg: frame.ResultVoid{}}
 			}}
 		nodes[ip] = sn
-		cl.add(ip, sn.wrapRegister(sn.handler()))
+		h := sn.wrapRegister(sn.handler())
+		if ip == hF.ip || ip == hG.ip {
+			inner := h
+			h = func(n *vnode.Node, sc *vnode.ServerConn, rec *vnode.ReqRec) vnode.Reply {
+				lastRejContact = len(peersLog)
+				return inner(n, sc, rec)
+			}
+		}
+		cl.add(ip, h)
 	}
 	var offers []string
 	cfg := gocql.NewCluster("10.0.0.1")
+	switch c.filter {
+	case "dc":
+		cfg.Hosts = []string{"10.0.0.1", hF.ip}
+		cfg.HostFilter = gocql.DataCentreHostFilter("dc1")
+	case "addr":
+		cfg.Hosts = []string{"10.0.0.1", hF.ip}
+		cfg.HostFilter = gocql.WhiteListHostFilter(acceptedAddrs...)
+	}
 	cfg.ProtoVersion = 4
 	cfg.Timeout = 100 * time.Millisecond
 	if c.burst {
@@ -223,7 +350,19 @@ func (c *c16cfg) body(depth int) {
 	cfg.ReconnectInterval = 0
 	cfg.WriteCoalesceWaitTime = 0
 	cfg.HostDialer = cl.dialer()
-	cfg.PoolConfig.HostSelectionPolicy = recPolicy16{gocql.RoundRobinHostPolicy(), &offers}
+	pol := recPolicy16{HostSelectionPolicy: gocql.RoundRobinHostPolicy(), offers: &offers}
+	if c.tokenAware {
+		cfg.Keyspace = "ks"
+		pol.HostSelectionPolicy = gocql.VerifC16TokenAwarePolicy("ks", func(keyspace string) (*gocql.KeyspaceMetadata, error) {
+			return &gocql.KeyspaceMetadata{Name: keyspace, DurableWrites: true, StrategyClass: "org.apache.cassandra.locator.SimpleStrategy",
+				StrategyOptions: map[string]interface{}{"class": "org.apache.cassandra.locator.SimpleStrategy", "replication_factor": "1"}}, nil
+		})
+		pol.noInit = true
+	}
+	cfg.PoolConfig.HostSelectionPolicy = pol
+	if os.Getenv("C16_LOG") != "" {
+		cfg.Logger = dbgLogger16{}
+	}
 	vs.Quiet(true)
 	sess, err := gocql.VerifNewSession(*cfg, false)
 	if err != nil {
@@ -233,9 +372,54 @@ func (c *c16cfg) body(depth int) {
 	}
 	vs.Settle(500 * time.Millisecond)
 	vs.Quiet(false)
+	if lastRejContact >= 0 {
+		lastRejContact = len(peersLog) // the initial host lookup is not a ring refresh
+	}
+	// the routing keys queries are made with: none (nil) with the plain policy, one per token range with the token-aware one
+	keys := [][]byte{nil}
+	if c.tokenAware {
+		keys = routingKeys
+	}
+	offeredOK := func(o string, known map[string]string, down map[string]bool) bool {
+		for id, ip := range known {
+			if ip == o && !down[id] {
+				return true
+			}
+		}
+		return false
+	}
+	// rejectedNow: the host id is one the filter rejects (a node of the current view, or one of the static rejected nodes)
+	rejectedNow := func(id string) bool {
+		if c.filter == "" {
+			return false
+		}
+		if id == hF.id || id == hG.id {
+			return true
+		}
+		for _, h := range view.hosts {
+			if h.id == id && c.rejected(h) {
+				return true
+			}
+		}
+		return false
+	}
+	rejectedAddr := func(ip string) bool {
+		if c.filter == "" {
+			return false
+		}
+		if ip == hF.ip || ip == hG.ip || ip == hBaddr.ip {
+			return true
+		}
+		for _, h := range view.hosts {
+			if h.ip == ip && c.rejected(h) {
+				return true
+			}
+		}
+		return false
+	}
 
 	// reference model
-	known := validOf(view) // id -> ip, as last reported by a successful refresh
+	known := c.knownOf(view) // id -> ip, as last reported by a successful refresh
 	down := map[string]bool{}
 	var hist []string
 	ctl := func() *sysnode { // the node currently holding the control connection
@@ -252,6 +436,19 @@ func (c *c16cfg) body(depth int) {
 		if sn := ctl(); sn != nil {
 			sn.push(&frame.EventTopologyChange{Change: change, Addr: ipBytes(ip), Port: 9042})
 		}
+	}
+	// a node that leaves the cluster or its address cannot announce that itself: if it holds the control
+	// connection, that connection breaks instead (the driver reconnects elsewhere and refreshes)
+	pushDeparture := func(change, evIP, goneIP string) {
+		if sn := ctl(); sn != nil && sn.self == goneIP {
+			for _, sc := range sn.registered {
+				if !sc.C.Closed() {
+					sc.C.Close()
+				}
+			}
+			return
+		}
+		pushTopo(change, evIP)
 	}
 	pushStatus := func(change, ip string) {
 		if sn := ctl(); sn != nil {
@@ -301,6 +498,15 @@ func (c *c16cfg) body(depth int) {
 		}
 		for id, addr := range snap.Hosts {
 			if _, ok := known[id]; !ok {
+				if rejectedNow(id) {
+					// at rest = a ring refresh has completed since a rejected node was last contacted (the control
+					// connection stores a contact point's details before it evaluates the filter; the next refresh removes them)
+					if (id == hF.id || id == hG.id) && lastRejContact >= 0 && len(peersLog) <= lastRejContact {
+						continue
+					}
+					vs.Failf("c16:host-filter:rejected-host-known", "host %s@%s is rejected by the host filter (%s) but is in the ring, and a ring refresh has completed since a rejected node was last contacted %s; snapshot %+v", id[len(id)-2:], addr, c.filter, where, snap)
+					continue
+				}
 				vs.Failf("c16:vanished-host-still-known", "host %s@%s is in the ring but the cluster no longer reports it %s; snapshot %+v", id[len(id)-2:], addr, where, snap)
 			}
 		}
@@ -327,9 +533,39 @@ func (c *c16cfg) body(depth int) {
 		}
 		for id := range pools {
 			if _, ok := known[id]; !ok {
+				if rejectedNow(id) {
+					vs.Failf("c16:host-filter:pool-for-rejected-host", "a connection pool exists for host %s which the host filter (%s) rejects %s", id[len(id)-2:], c.filter, where)
+					continue
+				}
 				vs.Failf("c16:pool-for-vanished-host", "a connection pool exists for host %s which the cluster no longer reports %s", id[len(id)-2:], where)
 			}
 		}
+		// I4: the selection policy at rest: drain the policy's host iterator for a query of every routing key
+		// (no request is sent): it must offer known, not-down hosts only
+		for _, key := range keys {
+			offers = offers[:0]
+			q := sess.Query("QUERYX 'x'")
+			if key != nil {
+				q = q.RoutingKey(key)
+			}
+			next := pol.Pick(q)
+			for n := 0; n < 64; n++ {
+				if next() == nil {
+					break
+				}
+			}
+			for _, o := range offers {
+				if offeredOK(o, known, down) {
+					continue
+				}
+				if rejectedAddr(o) {
+					vs.Failf("c16:host-filter:rejected-host-in-policy", "the selection policy offers host %s which the host filter (%s) rejects (routing key %q) %s", o, c.filter, key, where)
+				} else {
+					vs.Failf("c16:policy-offers-unknown-or-down-host", "the selection policy at rest offers host %s which is not a known up host (routing key %q; offered in all: %v; known %v, down %v) %s", o, key, offers, known, down, where)
+				}
+			}
+		}
+		offers = offers[:0]
 		_ = ev
 	}
 
@@ -344,7 +580,7 @@ func (c *c16cfg) body(depth int) {
 				applied = false
 				break
 			}
-			view.hosts = append(view.hosts, withPeer(hC, c.distinct))
+			view.hosts = append(view.hosts, c.host(hC))
 			pushTopo("NEW_NODE", hC.ip)
 		case "remove-B":
 			if !has(view, hB.id, hB.ip) {
@@ -352,14 +588,14 @@ func (c *c16cfg) body(depth int) {
 				break
 			}
 			without(view, hB.id)
-			pushTopo("REMOVED_NODE", hB.ip)
+			pushDeparture("REMOVED_NODE", hB.ip, hB.ip)
 		case "move-B":
 			if !has(view, hB.id, hB.ip) {
 				applied = false
 				break
 			}
 			without(view, hB.id)
-			view.hosts = append(view.hosts, withPeer(hB4, c.distinct))
+			view.hosts = append(view.hosts, c.host(hB4))
 			pushTopo("NEW_NODE", hB4.ip)
 		case "replace-B-by-D":
 			if !has(view, hB.id, hB.ip) {
@@ -367,21 +603,21 @@ func (c *c16cfg) body(depth int) {
 				break
 			}
 			without(view, hB.id)
-			view.hosts = append(view.hosts, withPeer(hD, c.distinct))
+			view.hosts = append(view.hosts, c.host(hD))
 			pushTopo("NEW_NODE", hD.ip)
 		case "invalid-peer":
 			if has(view, hX.id, hX.ip) {
 				applied = false
 				break
 			}
-			view.hosts = append(view.hosts, withPeer(hX, c.distinct))
+			view.hosts = append(view.hosts, c.host(hX))
 			pushTopo("NEW_NODE", hX.ip)
 		case "duplicate-row":
 			if !has(view, hB.id, hB.ip) {
 				applied = false
 				break
 			}
-			view.hosts = append(view.hosts, withPeer(hB, c.distinct))
+			view.hosts = append(view.hosts, c.host(hB))
 			pushTopo("NEW_NODE", hB.ip)
 		case "down-B":
 			pushStatus("DOWN", hB.ip)
@@ -394,8 +630,66 @@ func (c *c16cfg) body(depth int) {
 				applied = false
 				break
 			}
-			view.hosts = append(view.hosts, withPeer(hE, c.distinct))
+			view.hosts = append(view.hosts, c.host(hE))
 			pushTopo("NEW_NODE", hE.ip)
+		case "add-G(rejected)":
+			if has(view, hG.id, hG.ip) {
+				applied = false
+				break
+			}
+			view.hosts = append(view.hosts, c.host(hG))
+			pushTopo("NEW_NODE", hG.ip)
+		case "remove-F(rejected)":
+			if !has(view, hF.id, hF.ip) {
+				applied = false
+				break
+			}
+			without(view, hF.id)
+			pushTopo("REMOVED_NODE", hF.ip)
+		case "up-F(rejected)":
+			pushStatus("UP", hF.ip)
+		case "down-F(rejected)":
+			pushStatus("DOWN", hF.ip)
+		case "B-turns-rejected":
+			// the cluster re-reports B as a node the filter rejects: re-labelled into another data centre (same
+			// address) under the data-centre filter, moved to an address outside the set under the address filter
+			if !has(view, hB.id, hB.ip) || rejectedNow(hB.id) {
+				applied = false
+				break
+			}
+			nb := hBdc2
+			if c.filter == "addr" {
+				nb = hBaddr
+			}
+			without(view, hB.id)
+			view.hosts = append(view.hosts, c.host(nb))
+			if nb.ip != hB.ip {
+				pushDeparture("NEW_NODE", nb.ip, hB.ip)
+			} else {
+				pushTopo("NEW_NODE", nb.ip)
+			}
+		case "B-returns":
+			// B is reported (again) as the accepted node it was at the start
+			if has(view, hB.id, hB.ip) && !rejectedNow(hB.id) {
+				applied = false
+				break
+			}
+			without(view, hB.id)
+			view.hosts = append(view.hosts, c.host(hB))
+			pushTopo("NEW_NODE", hB.ip)
+		case "control-loss-while-accepted-nodes-refuse-connections":
+			// the control connection is lost while the accepted nodes refuse new connections for 2.5s: the reconnection
+			// attempts fall back to the contact points, one of which (hF) the filter rejects; then the nodes accept again
+			blocked = true
+			if sn := ctl(); sn != nil {
+				for _, sc := range sn.registered {
+					if !sc.C.Closed() {
+						sc.C.Close()
+					}
+				}
+			}
+			vs.Sleep(2500 * time.Millisecond)
+			blocked = false
 		case "down-unknown":
 			pushStatus("DOWN", "10.0.0.9")
 		case "up-unknown":
@@ -414,21 +708,21 @@ func (c *c16cfg) body(depth int) {
 			failNext = true
 			pushTopo("NEW_NODE", "10.0.0.8")
 		case "query":
-			offers = offers[:0]
-			err := sess.Query("QUERYX 'x'").WithContext(context.Background()).Exec()
-			for _, o := range offers {
-				ok := false
-				for id, ip := range known {
-					if ip == o && !down[id] {
-						ok = true
+			for _, key := range keys {
+				offers = offers[:0]
+				q := sess.Query("QUERYX 'x'")
+				if key != nil {
+					q = q.RoutingKey(key)
+				}
+				err := q.WithContext(context.Background()).Exec()
+				for _, o := range offers {
+					if !offeredOK(o, known, down) {
+						vs.Failf("c16:offered-unknown-or-down-host", "a query (routing key %q) was offered host %s which is not a known up host (known %v, down %v) after history %v", key, o, known, down, hist)
 					}
 				}
-				if !ok {
-					vs.Failf("c16:offered-unknown-or-down-host", "a query was offered host %s which is not a known up host (known %v, down %v) after history %v", o, known, down, hist)
+				if _, dq, _ := vs.Deviations(); err != nil && len(known) > len(down) && dq == dBefore {
+					vs.Failf("c16:query-failed", "query failed with %v although %d known hosts are up, after history %v", err, len(known)-len(down), hist)
 				}
-			}
-			if _, dq, _ := vs.Deviations(); err != nil && len(known) > len(down) && dq == dBefore {
-				vs.Failf("c16:query-failed", "query failed with %v although %d known hosts are up, after history %v", err, len(known)-len(down), hist)
 			}
 		}
 		return applied
@@ -516,21 +810,25 @@ func (c *c16cfg) body(depth int) {
 					down[id] = true
 				}
 			}
+			if lastRejContact >= 0 {
+				lastRejContact = len(peersLog) // "served" does not mean "applied": wait for another refresh
+			}
 		} else if refreshed {
 			// a host re-reported under a new address is removed and added afresh (and connected): no longer down
-			for id, ip := range validOf(view) {
+			for id, ip := range c.knownOf(view) {
 				if old, ok := known[id]; ok && old != ip {
 					delete(down, id)
 				}
 			}
-			known = validOf(view)
+			known = c.knownOf(view)
 			for id := range down {
 				if _, still := known[id]; !still {
 					delete(down, id)
 				}
 			}
 		}
-		mustRefresh := map[string]bool{"add-C": true, "remove-B": true, "move-B": true, "replace-B-by-D": true, "invalid-peer": true, "duplicate-row": true, "up-unknown": true, "control-loss": true}
+		mustRefresh := map[string]bool{"add-C": true, "remove-B": true, "move-B": true, "replace-B-by-D": true, "invalid-peer": true, "duplicate-row": true, "up-unknown": true, "control-loss": true,
+			"add-G(rejected)": true, "remove-F(rejected)": true, "B-turns-rejected": true, "B-returns": true, "control-loss-while-accepted-nodes-refuse-connections": true}
 		if applied && (mustRefresh[ev] || (c.burst && viewChanged)) && !refreshed && !uncertain {
 			_, d, _ := vs.Deviations()
 			if d == 0 {
@@ -566,6 +864,8 @@ func main() {
 	topo := []string{"add-C", "remove-B", "move-B", "replace-B-by-D", "invalid-peer", "duplicate-row", "query"}
 	status := []string{"down-B", "up-B", "down-unknown", "up-unknown", "remove-B", "replace-B-by-D", "query"}
 	faults := []string{"control-loss", "refresh-failure", "odd-heartbeat-reply", "add-C", "remove-B", "down-B", "query"}
+	filterTopo := []string{"add-G(rejected)", "remove-F(rejected)", "B-turns-rejected", "B-returns", "add-C", "remove-B", "up-F(rejected)", "query"}
+	filterFaults := []string{"control-loss-while-accepted-nodes-refuse-connections", "control-loss", "refresh-failure", "down-F(rejected)", "add-G(rejected)", "B-turns-rejected", "remove-F(rejected)", "query"}
 	cfgs := []*c16cfg{
 		{name: "topology-histories", events: topo, depth: [2]int{4, 5}, t: [2]int{0, 0}},
 		{name: "status-histories", events: status, depth: [2]int{4, 5}, t: [2]int{0, 0}},
@@ -576,7 +876,15 @@ func main() {
 		{name: "bursts-at-the-debounce-instant-wide", events: []string{"down-B", "up-B", "add-C", "remove-B"}, burst: true, gaps: []time.Duration{time.Second, 2 * time.Second}, depth: [2]int{1, 1}, t: [2]int{0, 2}},
 		{name: "event-debouncer-delivers-every-frame", depth: [2]int{0, 0}, t: [2]int{-1, -1}},
 		{name: "topology-with-schedule-deviation", events: []string{"replace-B-by-D", "move-B", "remove-B", "query"}, depth: [2]int{2, 2}, t: [2]int{1, 2}},
+		// a HostFilter in the session configuration (by data centre / by address set), rejected nodes in the cluster and among the contact points
+		{name: "host-filter-by-dc-topology-histories", filter: "dc", events: filterTopo, depth: [2]int{3, 4}, t: [2]int{0, 0}},
+		{name: "host-filter-by-address-topology-histories", filter: "addr", events: filterTopo, depth: [2]int{3, 4}, t: [2]int{0, 0}},
+		{name: "host-filter-by-dc-fault-histories", filter: "dc", events: filterFaults, depth: [2]int{3, 4}, t: [2]int{0, 0}},
+		{name: "host-filter-by-address-fault-histories", filter: "addr", events: filterFaults, depth: [2]int{3, 4}, t: [2]int{0, 0}},
+		// a token-aware selection policy with a session keyspace; queries routed to every token range
+		{name: "token-aware-policy-histories", tokenAware: true, events: []string{"add-C", "remove-B", "move-B", "replace-B-by-D", "down-B", "up-B", "query"}, depth: [2]int{3, 4}, t: [2]int{0, 0}},
 	}
+	findRoutingKeys()
 	tier := 0 // the history depth depends on the tier; shard children inherit VERIF_TIER from bin/check
 	if os.Getenv("VERIF_TIER") == "thorough" {
 		tier = 1
@@ -593,8 +901,9 @@ func main() {
 		defs = append(defs, mcreport.Def{Name: fmt.Sprintf("%s-depth%d", c.name, c.depth[tier]), Build: c.build(tier), Quick: b(c.t[0]), Thorough: b(c.t[1])})
 	}
 	mcreport.Main("C16", "model_checking",
-		"explicit enumeration of every event history up to the depth bound (3 quick, 4 thorough; each event a free choice point) over three alphabets - topology refreshes (add, remove, address change, new host id on an old address, invalid peer row, duplicate row), status events for known and unknown addresses, control-connection loss and refresh failure - each with a query; after every event the system settles for 4s of virtual time under the default schedule and the ring indexes, pools, host states and offered hosts are compared with a reference model; one alphabet is additionally explored with schedule/timer deviations",
-		[]string{"5 scripted nodes that serve system.local / system.peers from the harness's cluster view and push events on the control connection; 1 connection per host; ReconnectInterval 0; events reach the driver only through the control connection",
-			"histories are run under the default schedule (T=0) except where stated: interleavings inside one event's processing are explored only in the dedicated scenario"},
-		defs, 80*time.Second, 25*time.Minute, nil)
+		"explicit enumeration of every event history up to the depth bound (3 quick, 4 thorough; each event a free choice point) over three alphabets - topology refreshes (add, remove, address change, new host id on an old address, invalid peer row, duplicate row), status events for known and unknown addresses, control-connection loss and refresh failure - each with a query; after every event the system settles for 4s of virtual time under the default schedule and the ring indexes, pools, host states, the hosts offered to queries and the complete content of the selection policy (its host iterator drained at rest) are compared with a reference model; one alphabet is additionally explored with schedule/timer deviations. Session-configuration dimensions: a HostFilter (none / DataCentreHostFilter / WhiteListHostFilter address set) x two 8-letter alphabets (histories of length 3 quick, 4 thorough) with nodes the filter rejects in the cluster from the start, joining, leaving, getting UP/DOWN events, a known node turning into a rejected one (re-labelled into another data centre / moved to an address outside the set) and returning, and a rejected node among the contact points that control-connection reconnection attempts reach while the accepted nodes refuse connections (the model subtracts rejected nodes; a rejected node must have no pool and not be in the policy ever, and not be in the ring once a refresh has completed since it was last contacted); the selection policy (round-robin / token-aware over round-robin with a session keyspace, nodes owning widely spaced Murmur3 tokens, queries and policy drains for a routing key of every token range)",
+		[]string{"5 (8 with a host filter) scripted nodes that serve system.local / system.peers from the harness's cluster view and push events on the control connection; 1 connection per host; ReconnectInterval 0; events reach the driver only through the control connection",
+			"histories are run under the default schedule (T=0) except where stated: interleavings inside one event's processing are explored only in the dedicated scenario",
+			"the token-aware policy gets its keyspace metadata (SimpleStrategy rf 1) from the harness instead of the schema tables (the substitution policies_test.go makes); replica placement itself is C10's"},
+		defs, 80*time.Second, 41*time.Minute, nil) // thorough: the budget is shared by the scenarios (13 x ~3.1 min, as before the host-filter / token-aware scenarios were added: 8 x ~3.1 min)
 }
